@@ -61,6 +61,18 @@ def r2_cancel_shape(r, facts):
     # addr <- the closure's captured user_data parameter
     w = fm.get(16)
     ok = w is not None and any(x[0] == 'upvar' and x[1] == 'user_data' for x in w['roots'])
+    if not ok and w is not None:
+        # whatever the captured variable is called (`let target = sqe_addr { addr: user_data }`): what the creating
+        # function captured there must come from its user_data parameter
+        from .kernel import closure_captures
+        parent, caps = closure_captures(facts, c)
+        byname = {n: i for i, n in sqe.upvar_names(c).items()}
+        for x in w['roots']:
+            if x[0] == 'upvar' and x[1] in byname and byname[x[1]] < len(caps):
+                cap = caps[byname[x[1]]]
+                leaves = [y for y in subexprs(cap) if y[0] in ('arg', 'call', 'local')]
+                if leaves and all(y[0] == 'arg' and y[2] == 'user_data' for y in leaves):
+                    ok = True
     r.require(ok, 'cancel/addr', 'addr (offset 16) does not carry the target user_data: %s' % (w,), c.where())
     # cancel_flags (offset 28) untouched == 0 -> match by user_data, one request
     r.require(28 not in fm, 'cancel/flags', 'cancel_flags are set (%s): the request may match more than one operation' % (fm.get(28),), c.where())
